@@ -27,6 +27,30 @@ from jsonpath.pointer import UNDEFINED
 from jsonpath.pointer import JSONPointer
 
 
+def _array_index(
+    target: Union[int, str],
+    array: MutableSequence[object],
+    *,
+    insert: bool = False,
+) -> int:
+    """Return the index in _array_ denoted by the last token of a JSON Pointer.
+
+    If _insert_ is `True`, the end of the array, its length or `-`, is a valid
+    index too. That's where the add, move and copy operations append.
+    """
+    if insert and target == "-":
+        return len(array)
+
+    try:
+        index = int(target)
+    except ValueError as err:
+        raise JSONPatchError(f"invalid array index {target!r}") from err
+
+    if index > (len(array) if insert else len(array) - 1) or index < -len(array):
+        raise JSONPatchError("index out of range")
+    return index
+
+
 class Op(ABC):
     """One of the JSON Patch operations."""
 
@@ -66,13 +90,7 @@ class OpAdd(Op):
 
         target = self.path.parts[-1]
         if isinstance(parent, MutableSequence):
-            if obj is UNDEFINED:
-                if target == "-":
-                    parent.append(self.value)
-                else:
-                    raise JSONPatchError("index out of range")
-            else:
-                parent.insert(int(target), self.value)
+            parent.insert(_array_index(target, parent, insert=True), self.value)
         elif isinstance(parent, MutableMapping):
             parent[str(target)] = self.value
         else:
@@ -114,7 +132,7 @@ class OpAddNe(OpAdd):
             if obj is UNDEFINED:
                 parent.append(self.value)
             else:
-                parent.insert(int(target), self.value)
+                parent.insert(_array_index(target, parent, insert=True), self.value)
         elif isinstance(parent, MutableMapping) and str(target) not in parent:
             parent[str(target)] = self.value
         return data
@@ -148,7 +166,7 @@ class OpAddAp(OpAdd):
             if obj is UNDEFINED:
                 parent.append(self.value)
             else:
-                parent.insert(int(target), self.value)
+                parent.insert(_array_index(target, parent, insert=True), self.value)
         elif isinstance(parent, MutableMapping):
             parent[str(target)] = self.value
         else:
@@ -179,7 +197,7 @@ class OpRemove(Op):
         if isinstance(parent, MutableSequence):
             if obj is UNDEFINED:
                 raise JSONPatchError("can't remove nonexistent item")
-            del parent[int(self.path.parts[-1])]
+            del parent[_array_index(self.path.parts[-1], parent)]
         elif isinstance(parent, MutableMapping):
             # Object member names are strings, even if they look like an index.
             key = str(self.path.parts[-1])
@@ -219,7 +237,7 @@ class OpReplace(Op):
         if isinstance(parent, MutableSequence):
             if obj is UNDEFINED:
                 raise JSONPatchError("can't replace nonexistent item")
-            parent[int(self.path.parts[-1])] = self.value
+            parent[_array_index(self.path.parts[-1], parent)] = self.value
         elif isinstance(parent, MutableMapping):
             # Object member names are strings, even if they look like an index.
             key = str(self.path.parts[-1])
@@ -261,7 +279,7 @@ class OpMove(Op):
             raise JSONPatchError("source object does not exist")
 
         if isinstance(source_parent, MutableSequence):
-            del source_parent[int(self.source.parts[-1])]
+            del source_parent[_array_index(self.source.parts[-1], source_parent)]
         if isinstance(source_parent, MutableMapping):
             key = str(self.source.parts[-1])
             if key not in source_parent:
@@ -275,7 +293,9 @@ class OpMove(Op):
             return source_obj  # type: ignore
 
         if isinstance(dest_parent, MutableSequence):
-            dest_parent.insert(int(self.dest.parts[-1]), source_obj)
+            dest_parent.insert(
+                _array_index(self.dest.parts[-1], dest_parent, insert=True), source_obj
+            )
         elif isinstance(dest_parent, MutableMapping):
             dest_parent[str(self.dest.parts[-1])] = source_obj
         else:
@@ -317,7 +337,10 @@ class OpCopy(Op):
             return copy.deepcopy(source_obj)  # type: ignore
 
         if isinstance(dest_parent, MutableSequence):
-            dest_parent.insert(int(self.dest.parts[-1]), copy.deepcopy(source_obj))
+            dest_parent.insert(
+                _array_index(self.dest.parts[-1], dest_parent, insert=True),
+                copy.deepcopy(source_obj),
+            )
         elif isinstance(dest_parent, MutableMapping):
             dest_parent[str(self.dest.parts[-1])] = copy.deepcopy(source_obj)
         else:
